@@ -173,7 +173,15 @@ def analyse(prog, ctx_cfg) -> list:
                     tgt = n.func.value
                 elif isinstance(n, ast.Assign) and isinstance(n.targets[0], ast.Subscript):
                     tgt = n.targets[0].value
-                if isinstance(tgt, ast.Subscript) and stmt_text(tgt.value) == ctext and stmt_text(tgt.slice) == ktext:
+                inner_ = tgt
+                hit_entry = False
+                while isinstance(inner_, (ast.Subscript, ast.Attribute)):
+                    if isinstance(inner_, ast.Subscript) and stmt_text(inner_.value) == ctext \
+                            and stmt_text(inner_.slice) == ktext and n is not st:
+                        hit_entry = True
+                        break
+                    inner_ = inner_.value
+                if hit_entry:
                     mn = cfg.owner(n) if not isinstance(n, ast.stmt) else cfg.node_of(n)
                     # filled on the hit path (or after the two paths join): grouping.  Filled only inside the miss
                     # branch: still part of building the cached answer
